@@ -3,6 +3,7 @@ import SlogModel.Lemmas.BufferData
 import SlogModel.Lemmas.BufferSpace
 import SlogModel.Lemmas.BufferMemory
 import SlogModel.Lemmas.BufferSched
+import SlogModel.Lemmas.BufferLoaded
 import SlogModel.Lemmas.BufferSchedData
 import SlogModel.Gen.Facts
 
@@ -167,6 +168,26 @@ theorem C03_fifo_every_schedule (cfg : Cfg) (disk : List (Nat × Bytes)) (as : L
     s.outW.length ≤ s.cfg.memCap := by
   obtain ⟨a, b⟩ := recoverRaw_fifo_win cfg disk
   exact runI_fifo_win as _ s h a b
+
+/-- chunks whose bytes are in memory: loaded entries of the input channel, the chunk in the feeder's hand, the window -/
+def loaded (s : St) : Nat :=
+  (s.inQ.filter (fun e => e.data.isSome)).length + (if s.hand.isSome then 1 else 0) + s.outW.length
+
+/-- **C03 (only a fixed number of chunks stay in memory, every schedule).** At every point of every interleaving of the
+feeder's steps with the operations — not only at quiescent points — at most `queueCap + 1 + memCap` chunks are loaded: the
+input channel never exceeds its capacity, the feeder holds at most one chunk, the window at most `memCap`.  (At quiescent
+points the queued entries are all unloaded: `C03_memory_bound`.) -/
+theorem C03_loaded_bound_every_schedule (cfg : Cfg) (disk : List (Nat × Bytes)) (as : List IAct) (s : St)
+    (h : runI (recoverRaw cfg disk) as = some s) : loaded s ≤ s.cfg.queueCap + 1 + s.cfg.memCap := by
+  have hq : s.inQ.length ≤ s.cfg.queueCap := runI_qb as _ s h (recoverRaw_qb cfg disk)
+  have hw := (C03_fifo_every_schedule cfg disk as s h).2
+  have hf : (s.inQ.filter (fun e => e.data.isSome)).length ≤ s.inQ.length := List.length_filter_le _ _
+  unfold loaded
+  split <;> omega
+
+/-- non-vacuity: three accepts before the feeder has taken a step — three loaded chunks with a window of two -/
+example : (runI { cfg := { memCap := 2, queueCap := 5, maxBytes := 100, hasDir := true } }
+    [.op (.accept 1 [1]), .op (.accept 2 [2]), .op (.accept 3 [3])]).map loaded = some 3 := by decide
 
 /-- **C03 (byte-for-byte unchanged, every schedule).** -/
 theorem C03_unchanged_every_schedule (cfg : Cfg) (disk : List (Nat × Bytes)) (hd : (disk.map (·.1)).Nodup)
